@@ -63,6 +63,7 @@ DocLoop == Loop = "doc" \/ cfg.feat = "retry"
 
 Init ==
   /\ cfg \in [op : Ops, fmt : Fmts, feat : Feats]
+  /\ (cfg.op = "update" => cfg.fmt = "MDMF")            \* SDMF files are never updated in place
   /\ \E S \in SUBSET Slots : /\ Cardinality(S) <= MaxShares
                              /\ \E f \in [S -> CellCodes \cup (IF Combine \/ cfg.feat = "bad" THEN BadCodes ELSE {})] :
                                   L = [s \in Servers |-> [sh \in Shnums |-> IF <<s, sh>> \in S THEN Cell(f[<<s, sh>>]) ELSE Cell(0)]]
